@@ -59,7 +59,32 @@ let tw (args : string list) : string =
     String.concat " " (List.map show_wr obs)
   | _ -> failwith "tw: bad args"
 
+(* twnest: outer truncated writers over ONE inner truncated writer over a sink that accepts everything;
+   built from the model's tw_write alone (the writer state of an outer is the inner writer's state) *)
+let twnest (args : string list) : string =
+  match args with
+  | [inner_limit; outer_limits; writes] ->
+    let sink_step (sink : gostring) (chunk : gostring) = (sink @ chunk, z_of_string "0") in
+    let inner = ref (new_trunc_writer [] (z_of_string inner_limit)) in
+    let inner_step (st : gostring twst) (chunk : gostring) =
+      let (st', o) = tw_write sink_step st chunk in (st', o.wo_err) in
+    let offs = Array.of_list (List.map (fun l -> (z_of_string l, z_of_string "0")) (split_on ',' outer_limits)) in
+    let outs = List.map (fun w ->
+        match String.split_on_char ':' w with
+        | [k; h] ->
+          let k = int_of_string k in
+          let (lim, off) = offs.(k) in
+          let st = { tw_w = !inner; tw_limit = lim; tw_offset = off } in
+          let (st', o) = tw_write inner_step st (str_of_hex h) in
+          inner := st'.tw_w;
+          offs.(k) <- (lim, st'.tw_offset);
+          string_of_z o.wo_n ^ ":" ^ (if string_of_z o.wo_err = "0" then "0" else "1")
+        | _ -> failwith "twnest: bad write") (split_on ',' writes) in
+    String.concat " " outs ^ " sink=" ^ hex_of_str (!inner).tw_w
+  | _ -> failwith "twnest: bad args"
+
 let () =
+  Registry.register "twnest" twnest;
   Registry.register "lr" lr;
   Registry.register "lrx" lrx;
   Registry.register "tw" tw
